@@ -5,7 +5,7 @@
 (*   UpdateStateForIterativeAction / ActionIterationWantsToStopBySignal    *)
 (* of common/concertina_lib.py, and the refinement                         *)
 (*        ConcertinaImpl => Concertina                                     *)
-(* checked by TLC over every configuration in ConfigSeq.                   *)
+(* checked by TLC over every configuration in ConfigSeq (the input file).  *)
 (*                                                                         *)
 (* This module carries NO verdict about the code (DESIGN.md R1): it is the *)
 (* design-level argument that the algorithm meets the abstract property,   *)
@@ -17,9 +17,7 @@
 (* its signal file written while the t-th engine call on a member of i is  *)
 (* executing, i.e. before that call's state update (EnvRaise, then RunOne).*)
 (***************************************************************************)
-EXTENDS Naturals, Sequences, FiniteSets, TLC
-
-CONSTANT ConfigSeq
+EXTENDS ConcertinaCfg, TLC
 
 VARIABLES ci,         \* configuration index
           toRun,      \* self.actions_to_run
@@ -139,7 +137,13 @@ Common(a) ==
   /\ log' = Append(log, <<"run", a>>)
   /\ UNCHANGED <<ci, files, phase>>
 
+(* RunOneAction is called while actions_to_run is not empty; the harness's *)
+(* engine writes a due signal file before the call's state update          *)
+CanCall == /\ phase = "run" /\ toRun # <<>>
+           /\ ~\E i \in DOMAIN c0.iters : RaiseDue(i)
+
 RunPlainI ==
+  CanCall /\
   LET a == Head(toRun) IN
   /\ ~IIterated(c0, a)
   /\ Common(a)
@@ -154,6 +158,7 @@ Iterative(a) ==
   /\ mcalls' = [mcalls EXCEPT ![c0.itof[a]] = @ + 1]
 
 RunLastI ==                   \* repetitions reached
+  CanCall /\
   LET a == Head(toRun) IN
   /\ Iterative(a)
   /\ itDone[a] + 1 >= c0.iters[c0.itof[a]].reps
@@ -164,6 +169,7 @@ RunLastI ==                   \* repetitions reached
 WantsToStop(i) == c0.iters[i].sig = 1 /\ (i \in wrench \/ i \in files)
 
 RunStoppedI ==                \* ActionIterationWantsToStopBySignal
+  CanCall /\
   LET a == Head(toRun) i == c0.itof[a] IN
   /\ Iterative(a)
   /\ itDone[a] + 1 < c0.iters[i].reps
@@ -174,6 +180,7 @@ RunStoppedI ==                \* ActionIterationWantsToStopBySignal
   /\ wrench' = wrench \cup {i}
 
 RunRequeueI ==                \* cycle the iteration's actions
+  CanCall /\
   LET a == Head(toRun) i == c0.itof[a] rest == Tail(toRun) IN
   /\ Iterative(a)
   /\ itDone[a] + 1 < c0.iters[i].reps
@@ -181,16 +188,17 @@ RunRequeueI ==                \* cycle the iteration's actions
   /\ toRun' = InsertAt(rest, LeadLen(rest, i), a)
   /\ UNCHANGED <<complete, wrench, stopped>>
 
-RunOne == /\ phase = "run" /\ toRun # <<>>
-          /\ ~\E i \in DOMAIN c0.iters : RaiseDue(i)
-          /\ (RunPlainI \/ RunLastI \/ RunStoppedI \/ RunRequeueI)
+RunOne == RunPlainI \/ RunLastI \/ RunStoppedI \/ RunRequeueI
 
 Finish == /\ phase = "run" /\ toRun = <<>>
           /\ phase' = "done"
           /\ UNCHANGED <<ci, toRun, itDone, complete, wrench, stopped, files,
                          mcalls, calls, log>>
 
-Next == RunOne \/ Finish \/ \E i \in DOMAIN c0.iters : EnvRaise(i)
+DoEnvRaise == \E i \in DOMAIN c0.iters : EnvRaise(i)
+(* top-level disjuncts are named so that TLC -coverage counts each *)
+Next == RunPlainI \/ RunLastI \/ RunStoppedI \/ RunRequeueI \/ Finish
+        \/ DoEnvRaise
 
 Spec == Init /\ [][Next]_ivars /\ WF_ivars(Next)
 
